@@ -75,6 +75,8 @@ static void first_library_frame(char* out, size_t outSize)
 
 [[noreturn]] void fatal_exit(const char* cls, const char* detail, int code)
 {
+	g_sched_on = false;
+	t_clock_on = false;
 	char site[512];
 	first_library_frame(site, sizeof site);
 	fprintf(stderr, "\nFATAL %s site=%s detail=%s run=%s\n", cls, site, detail ? detail : "", g_label);
@@ -185,8 +187,13 @@ void ev_reset(bool keepTrace)
 void stream_call_budget(uint64_t b) { g_stream_budget = b; }
 uint64_t stream_calls() { return g_stream_calls; }
 
+static FILE* g_ev_debug = nullptr;
+static bool g_ev_debug_checked = false;
+
 void ev(uint32_t kind, uint64_t a, uint64_t b)
 {
+	if (!g_ev_debug_checked) { g_ev_debug_checked = true; if (const char* p = getenv("SIM_EVLOG")) g_ev_debug = fopen(p, "w"); }
+	if (g_ev_debug) fprintf(g_ev_debug, "%u %llu %llu\n", kind, (unsigned long long)a, (unsigned long long)b);
 	uint64_t rec[3] = { kind, a, b };
 	g_ev_hash = fnv1a(rec, sizeof rec, g_ev_hash);
 	++g_ev_count;
@@ -267,6 +274,9 @@ static void on_signal(int sig)
 
 static void on_sanitizer_death()
 {
+	// the dying thread must not be preempted any more (the sanitizer holds its locks while it reports)
+	g_sched_on = false;
+	t_clock_on = false;
 	fprintf(stderr, "\nFATAL SANITIZER run=%s\n", g_label);
 	if (g_stats_dump) g_stats_dump();
 	fflush(stdout);
